@@ -1,17 +1,27 @@
 /-
-  Driver of component `races` (C20): answers, from the regenerated table `Mcp.Gen.rcSharedFields` and the very
-  predicates the theorems of `Props/C20` are about,
+  Driver of component `races` (C20): answers, from the regenerated tables `Mcp.Gen.rcSharedFields` / `Mcp.Gen.rcGlobals`
+  and the very predicates the theorems of `Props/C20` are about,
     races.field    {"type","field"}                     → is the field in the table, is it disciplined
     races.predict  {"type","field","f1","f2","pointee"} → does the table predict (pointee: explain) a race report
                                                            on this field between these two functions
+    races.global   {"pkg","name"}                       → is the package-level variable in the table, what does it
+                                                           hold, is it disciplined
+    races.gpredict {"pkg","name","f1","f2"}             → does the table predict a race report on (the object behind)
+                                                           this package-level variable between these two functions
 -/
 import Mcp.Drv.Util
 import Mcp.Model.Lockset
+import Mcp.Model.Globals
 import Mcp.Gen.FieldLocks
+import Mcp.Gen.Globals
 namespace Mcp.Drv.Races
-open Lean Mcp.Drv Mcp.Lockset
+open Lean Mcp.Drv Mcp.Lockset Mcp.Globals
 
-def handle (op : String) (j : Json) : Except String Json := do
+def vkindName : VKind → String
+  | .immutable => "immutable" | .syncType => "sync" | .safeObject => "safe"
+  | .container => "container" | .opaque => "opaque" | .unknown => "unknown"
+
+def handleField (op : String) (j : Json) : Except String Json := do
   let ty ← getText j "type"
   let fld ← getText j "field"
   match op with
@@ -19,13 +29,35 @@ def handle (op : String) (j : Json) : Except String Json := do
     match Mcp.Gen.rcSharedFields.find? (fun f => f.type == ty && f.field == fld) with
     | none => pure (Json.mkObj [("known", Json.bool false), ("disciplined", Json.bool false)])
     | some f => pure (Json.mkObj [("known", Json.bool true), ("disciplined", Json.bool (disciplined f))])
-  | "predict" =>
+  | _ =>
     let f1 ← getText j "f1"
     let f2 ← getText j "f2"
     let pointee ← getBool j "pointee"
     let p := if pointee then explained Mcp.Gen.rcSharedFields ty fld f1 f2 || explained Mcp.Gen.rcSharedFields ty fld f2 f1
              else predicted Mcp.Gen.rcSharedFields ty fld f1 f2 || predicted Mcp.Gen.rcSharedFields ty fld f2 f1
     pure (Json.mkObj [("predicted", Json.bool p)])
+
+def handleGlobal (op : String) (j : Json) : Except String Json := do
+  let pkg ← getText j "pkg"
+  let name ← getText j "name"
+  let g? := Mcp.Gen.rcGlobals.find? (fun g => g.pkg == pkg && g.name == name)
+  match op with
+  | "global" =>
+    match g? with
+    | none => pure (Json.mkObj [("known", Json.bool false), ("disciplined", Json.bool false), ("vkind", Json.str "unknown")])
+    | some g => pure (Json.mkObj [("known", Json.bool true), ("disciplined", Json.bool (gDisciplined g)), ("vkind", Json.str (vkindName g.vkind))])
+  | _ =>
+    let f1 ← getText j "f1"
+    let f2 ← getText j "f2"
+    let p := match g? with
+      | none => false
+      | some g => predicted [asField g] pkg name f1 f2 || predicted [asField g] pkg name f2 f1
+    pure (Json.mkObj [("predicted", Json.bool p)])
+
+def handle (op : String) (j : Json) : Except String Json :=
+  match op with
+  | "field" | "predict" => handleField op j
+  | "global" | "gpredict" => handleGlobal op j
   | o => throw s!"unknown op {o}"
 
 end Mcp.Drv.Races
